@@ -34,6 +34,12 @@ Theorem C09_wrong_length_rejected : forall decl s vs, length vs <> length decl -
 Proof. exact wrong_length_rejected. Qed.
 Print Assumptions C09_wrong_length_rejected.
 
+(* a 2-D array is accepted only as an (n,1)/(n,) shaped set of exactly n values: (n,k), (1,n), (k,n) are rejected *)
+Theorem C09_wrong_shape_rejected : forall decl s rows vs, rows <> length decl \/ length vs <> length decl ->
+  snd (step decl dict_branch_aliases s (SetArr rows vs)) = false.
+Proof. exact wrong_shape_rejected. Qed.
+Print Assumptions C09_wrong_shape_rejected.
+
 (* the aliasing variant of the dict branch violates the statement (witness replayed on pygom) *)
 Theorem C09_alias_leak_refuted :
   bound leak_decl (fst (run leak_decl true leak_ops)) 1 <> snd (run leak_decl true leak_ops) 1%nat.
